@@ -11,6 +11,8 @@ func ThoroughExtras(c *Ctx, prop, verifDir string) map[string]any {
 
 // Forget drops the per-program caches (used when many variants are analysed in one process).
 func Forget(p *core.Program) {
+	cacheMu.Lock()
 	delete(effCache, p)
 	delete(pmCaches, p)
+	cacheMu.Unlock()
 }
